@@ -159,6 +159,27 @@ Theorem half_decode_exact : forall s e m : N, s < 2 -> e < 32 -> m < 1024 ->
 Proof. exact half_decode_fields. Qed.
 Print Assumptions half_decode_exact.
 
+(* ====================== support of the large synthetic cases (Check/C15.v, CBig cases) ====================== *)
+(* an input in the middle of quantisation step j is stored as exactly byte j (rotation, colour in the
+   displayable domain, opacity in the sigmoid domain): the model's answer on the mid-step clouds *)
+Theorem splat_mid_step_exact :
+  (forall j, (0 <= j <= 255)%Z -> qrot ((inject_Z j - 128 + (1 # 2)) / 128) = j) /\
+  (forall j, (0 <= j <= 255)%Z -> qcol_of ((inject_Z j + (1 # 2)) / 255) = j) /\
+  (forall j, (0 <= j <= 254)%Z -> qalpha ((inject_Z j + (1 # 2)) / 255) = j).
+Proof. split; [exact qrot_mid|]. split; [exact qcol_of_mid|exact qalpha_mid]. Qed.
+Print Assumptions splat_mid_step_exact.
+
+(* the SPZ byte dequantisers are injective: two bytes with the same dequantised value are the same byte,
+   so comparing the bytes that returned values dequantise from is comparing the values *)
+Theorem spz_dequantisers_injective : forall a b : N,
+  ((scale1 a == scale1 b)%Q -> a = b) /\ ((sh1 a == sh1 b)%Q -> a = b) /\ ((rot1 a == rot1 b)%Q -> a = b) /\
+  ((col1 a == col1 b)%Q -> a = b) /\ ((bq a / 255 == bq b / 255)%Q -> a = b).
+Proof.
+  intros a b. split; [apply scale1_inj|]. split; [apply sh1_inj|]. split; [apply rot1_inj|].
+  split; [apply col1_inj|apply alpha_inj].
+Qed.
+Print Assumptions spz_dequantisers_injective.
+
 (* ====================== SplatPly ====================== *)
 
 (* _partial: the full statement is "ply.ReadMesh (SplatPly.Write cloud) returns every attribute
